@@ -125,6 +125,7 @@ class Interp:
         self.depth = 0
         self.max_depth = 4
         self._lazy = {}
+        self.oracles = {}     # callee name -> fn(args, node): summaries of functions that are not interpreted
         self.fail_parse = None   # optional oracle: parse_expression(x) raises when fail_parse(x) is true
         self.trace = []      # (event, detail) e.g. stack operations for C01.S
 
@@ -235,6 +236,8 @@ class Interp:
                 base.d[key] = val
             elif isinstance(base, AList) and isinstance(key, int):
                 base.l[key] = val
+            elif base is None:
+                raise RaiseSig('TypeError', ("'NoneType' object does not support item assignment",), t)
             else:
                 self.bad(t, 'subscript store on a non-container')
         elif isinstance(t, (ast.Tuple, ast.List)):
@@ -317,6 +320,23 @@ class Interp:
                 return self._lazy[e.id]
             if e.id in ('set', 'frozenset', 'sorted', 'any', 'all', 'zip', 'abs'):
                 return ('builtin', e.id)
+            if e.id in self.mod.imports and getattr(self, 'repo', None) is not None:
+                modname, orig = self.mod.imports[e.id]
+                if orig is None:
+                    return ('module', modname)
+                other = self.repo.resolve_module(modname)
+                if other is not None:
+                    if orig in other.classes:
+                        return ('class', orig)
+                    if orig in other.funcs:
+                        return ('extern', other.name, orig)
+                    if orig in other.assigns and len(other.assigns[orig]) == 1:
+                        from .core import const_eval
+                        try:
+                            return const_eval(other, other.assigns[orig][0])
+                        except Exception:
+                            pass
+                return ('extern', modname, orig)
             if e.id in ('len', 'next', 'iter', 'reversed', 'list', 'enumerate', 'isinstance', 'str', 'int', 'float', 'dict', 'tuple', 'range', 'bool', 'min', 'max'):
                 return ('builtin', e.id)
             self.bad(e, f'unknown name {e.id}')
@@ -421,6 +441,8 @@ class Interp:
                 return self.group(base, key, e)
             if isinstance(base, Sym):
                 return Sym('item', base, key)
+            if base is None:
+                raise RaiseSig('TypeError', ("'NoneType' object is not subscriptable",), e)
             self.bad(e, f'subscript of {type(base).__name__}')
         if isinstance(e, ast.Attribute):
             base = self.eval(e.value, env)
@@ -443,6 +465,20 @@ class Interp:
             out = []
             self.comp(e, 0, dict(env), out)
             return out if isinstance(e, ast.GeneratorExp) else AList(out)
+        if isinstance(e, ast.Lambda):
+            return ('closure', e, dict(env))
+        if isinstance(e, ast.DictComp):
+            pairs = []
+            fake = ast.GeneratorExp(elt=ast.Tuple(elts=[e.key, e.value], ctx=ast.Load()), generators=e.generators)
+            self.comp(fake, 0, dict(env), pairs)
+            out = ADict()
+            for k, v in pairs:
+                out.d[k] = v
+            return out
+        if isinstance(e, ast.SetComp):
+            items = []
+            self.comp(ast.GeneratorExp(elt=e.elt, generators=e.generators), 0, dict(env), items)
+            return frozenset(items)
         self.bad(e, f'expression kind {type(e).__name__} outside the interpreted subset')
 
     def comp(self, e, ix, env, out):
@@ -559,6 +595,11 @@ class Interp:
                     if isinstance(args[0], ADict):
                         base.d.update(args[0].d)
                         return None
+                    if isinstance(args[0], (list, tuple, AList)):
+                        for pair in self.iterate(args[0], e):
+                            k, v = self.iterate(pair, e)
+                            base.d[k] = v
+                        return None
                 if m == 'copy':
                     return ADict(base.d)
                 self.bad(e, f'dict method {m}')
@@ -611,6 +652,8 @@ class Interp:
                 if m in ('strip', 'rstrip', 'lstrip', 'lower', 'upper'):
                     return getattr(base, m)()
             self.bad(e, f'method call .{m}() on {type(base).__name__}')
+        if isinstance(f, ast.Name) and f.id in self.oracles and f.id not in env:
+            return self.oracles[f.id]([self.eval(a, env) for a in e.args], e)
         fn = self.eval(f, env)
         args = [self.eval(a, env) for a in e.args]
         kwargs = {}
@@ -648,6 +691,18 @@ class Interp:
                 raise RaiseSig('StopIteration', (), e)
             if name == 'reversed':
                 return list(reversed(self.iterate(args[0], e)))
+            if name == 'zip':
+                seqs = [self.iterate(a, e) for a in args]
+                return [tuple(t) for t in zip(*seqs)]
+            if name == 'range':
+                if all(isinstance(a, int) and not isinstance(a, bool) for a in args) and 1 <= len(args) <= 3:
+                    r = range(*args)
+                    if len(r) > 10000:
+                        self.bad(e, 'range too long')
+                    return list(r)
+                self.bad(e, 'range over symbolic bounds')
+            if name in ('min', 'max') and args and all(isinstance(a, (int, float)) and not isinstance(a, bool) for a in args) and len(args) > 1:
+                return (min if name == 'min' else max)(*args)
             if name == 'list':
                 return AList(self.iterate(args[0], e)) if args else AList()
             if name == 'tuple':
@@ -682,7 +737,25 @@ class Interp:
             return self.call_function(fn.node, args, e, kwargs)
         if isinstance(fn, tuple) and fn and fn[0] == 'class':
             return Sym('instance', fn[1], tuple(args))
+        if isinstance(fn, tuple) and fn and fn[0] in ('closure', 'partial'):
+            return self.apply(fn, args, e)
         self.bad(e, 'call outside the interpreted subset')
+
+    def apply(self, fn, args, at):
+        """call an abstract function value: ModuleFunc, ('partial', fn, pre-args), ('closure', Lambda, env)"""
+        if isinstance(fn, ModuleFunc):
+            return self.call_function(fn.node, list(args), at)
+        if isinstance(fn, tuple) and fn and fn[0] == 'partial':
+            return self.apply(fn[1], list(fn[2]) + list(args), at)
+        if isinstance(fn, tuple) and fn and fn[0] == 'closure':
+            lam, cenv = fn[1], fn[2]
+            params = [a.arg for a in lam.args.args]
+            if len(params) != len(args) or lam.args.vararg or lam.args.kwarg or lam.args.defaults:
+                self.bad(at, 'lambda signature outside the subset')
+            env = dict(cenv)
+            env.update(zip(params, args))
+            return self.eval(lam.body, env)
+        self.bad(at, f'value {fn!r} is not callable')
 
     def method_hook(self, base, m, args, e):
         return NotImplemented
